@@ -441,17 +441,63 @@ def c13_tablerow_badcols(n: int, cols: int) -> bool:
     pre: cols <= 0
     post: _
     """
-    # cols <= 0: only internal consistency: items in order, index/first/last agree, Liquid errors only
+    # cols <= 0: the column counter never equals cols, so (reference semantics: wrap after the cell whose column number
+    # equals cols) every item is in row 1, columns count 1..n and no cell is the last of its row
     if excluded("c13_tablerow_badcols", locals()):
         return True
     out = render(T_TR, xs=list(range(n)), c=cols, l=None if n < 0 else 99, o=0)
     if out.startswith("ERR:"):
         return finish(True)
-    ok = True
-    for k in range(n):
-        frag = ">%d:%d:%d:%d:%d:%s:%s:%d:" % (k, k + 1, k, n - k, n - k - 1, b(k == 0), b(k == n - 1), n)
-        ok = ok and (frag in out)
-    return finish(ok)
+    return finish(out == ref_tablerow_any(list(range(n)), cols))
+
+
+def ref_tablerow_any(items, cols):
+    """Reference HTML for any integer cols: the column counter runs 1, 2, ... and wraps after the cell where it equals cols."""
+    L = len(items)
+    out = '<tr class="row1">\n'
+    col, row = 1, 1
+    for k in range(L):
+        if k:
+            if col == cols:
+                col, row = 1, row + 1
+            else:
+                col += 1
+        out += '<td class="col%d">' % col + _tr_body(items[k], k, L, col, row, col == cols) + "</td>"
+        if col == cols and k != L - 1:
+            out += '</tr>\n<tr class="row%d">' % (row + 1)
+    return out + "</tr>\n"
+
+
+# cols given as something other than an integer: (value, the integer it stands for)
+COLS_VALUES = [("x", 0), (None, 0), ("2", 2), ("", 0), ([], 0), ({}, 0), (True, 1), (False, 0), (2.0, 2), ("1", 1), (0, 0), (-1, -1), (10 ** 30, 10 ** 30), ("-2", -2), ("3 ", 3)]
+T_TR_C = _t("{% tablerow i in xs cols: c %}" + TR_BODY + "{% endtablerow %}")
+
+
+def cols_values_sweep(ci):
+    import asyncio
+    val, means = COLS_VALUES[ci]
+    bad = []
+    for n in range(0, 6):
+        want = ref_tablerow_any(list(range(n)), means)
+        got = render(T_TR_C, xs=list(range(n)), c=val)
+        try:
+            agot = asyncio.run(T_TR_C.render_async(xs=list(range(n)), c=val))
+        except Exception as e:
+            agot = "ERR:" + type(e).__name__
+        if got != want or agot != want:
+            bad.append({"n": n, "cols": repr(val), "sync": got[:300], "async": agot[:300], "expected": want[:300]})
+    return bad
+
+
+def c13_tablerow_cols_values(ci: int) -> bool:
+    """
+    pre: 0 <= ci <= 14
+    post: _
+    """
+    if excluded("c13_tablerow_cols_values", locals()):
+        return True
+    ci = cint(ci, 0, 14)
+    return finish(untraced(lambda: not cols_values_sweep(ci)))
 
 
 def c13_tablerow_break(n: int, cols: int, bi: int, ki: int) -> bool:
@@ -560,6 +606,7 @@ def c13_for_else_placement(w: int, bd: int, ls: int, n: int, limit: int, offset:
 
 
 DETAIL = globals().get("DETAIL", {})
+DETAIL["c13_tablerow_cols_values"] = lambda ci: {"cols": repr(COLS_VALUES[ci][0]), "failing": cols_values_sweep(ci)[:2]}
 DETAIL["c13_for_after_failed_loop"] = lambda k, n, m, warn: {"source": _FAIL_SRC[k], "xs": list(range(1, n + 1)), "ys": list(range(m)), "mode": "WARN" if warn else "LAX",
                                                               "observed_expected": after_failed_loop(k, n, m, warn)}
 DETAIL["c13_for_else_placement"] = lambda w, bd, ls, n, limit, offset: {"source": W_SHAPES[w] % (L_SHAPES[ls] % B_SHAPES[bd][0]) + "|{{ s }}", "xs": list(range(n)),
@@ -588,6 +635,7 @@ CONDITIONS = [
     {"fn": "c13_tablerow_cols", "quick": 60, "thorough": 300},
     {"fn": "c13_tablerow_nocols", "quick": 40, "thorough": 180},
     {"fn": "c13_tablerow_badcols", "quick": 40, "thorough": 120},
+    {"fn": "c13_tablerow_cols_values", "quick": 30, "thorough": 60, "sel_only": True},
     {"fn": "c13_tablerow_break", "quick": 60, "thorough": 240},
 ]
 
